@@ -349,7 +349,9 @@ func verify(copyDir string) (r resp) {
 	}
 	rebuilt, err := sqlref.DumpFile(filepath.Join(copyDir, "db.sqlite"))
 	if err != nil {
-		r.Err = "dump rebuilt: " + err.Error()
+		// the live database could be dumped, the rebuilt one cannot: it is not the
+		// database the node had applied
+		r.Problem = "database rebuilt from newest snapshot + log cannot be read: " + err.Error()
 		return
 	}
 	if rebuilt.Hash() != live.Hash() {
@@ -429,6 +431,12 @@ func genSeq(c *vf.Ctx, i int) []step {
 		{"write-heavy", "ghost-join", "write-heavy", "snapshot-close-fails-late", "write-heavy", "snapshot"},
 		{"write-heavy", "ghost-join", "write-heavy", "restart", "write-heavy", "snapshot"},
 		{"write-heavy", "snapshot", "write-heavy", "snapshot", "write-heavy", "snapshot", "write-heavy", "snapshot", "reap", "write-heavy", "snapshot"},
+		// a load whose first following snapshot does not reach the store
+		{"write-small", "snapshot", "load", "ghost-join", "write-small", "snapshot", "write-heavy", "snapshot"},
+		{"write-small", "snapshot", "load", "snapshot-close-fails-early", "write-small", "snapshot"},
+		// a load applied by a freshly restarted process
+		{"write-small", "snapshot", "restart", "load", "write-small", "snapshot", "write-heavy", "snapshot"},
+		{"write-small", "snapshot", "restart-snap", "load", "write-heavy", "snapshot"},
 	}
 	var motif []string
 	at := -1
@@ -571,7 +579,7 @@ func runSeq(c *vf.Ctx, tmp string, i int, steps []step) (res seqResult) {
 }
 
 func run(c *vf.Ctx) {
-	c.Rule("sequence = write-small, snapshot, then 12 (quick) / 20 (thorough) seeded ops (every second sequence with one of 8 directed motifs spliced in, e.g. page-heavy write, skipped persist, page-heavy write, load, write, snapshot, write, snapshot) over {small write batch, page-heavy batch overwriting earlier pages in several tables, user snapshot, join of an unreachable non-voter followed at once by a snapshot (Raft then skips Persist and rqlite keeps the staged WAL), remove it, snapshot whose sink Close is made to fail before the staged WAL is consumed, snapshot whose sink Close fails after (process exits by design, worker restarted), load, boot, reap, restart with and without snapshot-on-close} on a real single-node Store; after EVERY op the raft directory is copied without db.sqlite*, clean_snapshot and the WAL staging dir, a fresh Store is opened on the copy (restore newest snapshot, replay log) and its logical dump must equal the live database's. non-trivial = sequence that contained a skipped persist, a failed close, a load/boot or a reap; distinct by op sequence")
+	c.Rule("sequence = write-small, snapshot, then 12 (quick) / 20 (thorough) seeded ops (every second sequence with one of 12 directed motifs spliced in, e.g. page-heavy write, skipped persist, page-heavy write, load, write, snapshot, write, snapshot) over {small write batch, page-heavy batch overwriting earlier pages in several tables, user snapshot, join of an unreachable non-voter followed at once by a snapshot (Raft then skips Persist and rqlite keeps the staged WAL), remove it, snapshot whose sink Close is made to fail before the staged WAL is consumed, snapshot whose sink Close fails after (process exits by design, worker restarted), load, boot, reap, restart with and without snapshot-on-close} on a real single-node Store; after EVERY op the raft directory is copied without db.sqlite*, clean_snapshot and the WAL staging dir, a fresh Store is opened on the copy (restore newest snapshot, replay log) and its logical dump must equal the live database's. non-trivial = sequence that contained a skipped persist, a failed close, a load/boot or a reap; distinct by op sequence")
 	c.Assume("follower snapshot install is exercised in C22/C01 (late joiner), not here")
 	nSeq := c.N(10, 160)
 	tmp := vf.TempDir("c04")
